@@ -7,7 +7,7 @@ import ast
 from ..cfg import CFG
 from ..model import AnalysisError, dotted, norm_src, own_nodes
 from ..rules import exc
-from ..util import names_in
+from ..util import expand_names, names_in
 
 IO = "swcgeom.core.swc_utils.io"
 ENTRIES = {
@@ -47,6 +47,11 @@ def run(ctx, col, tier):
                         "builtin exception hierarchy as in the running interpreter"]
     col.not_decided += ["numeric equality of parsed fields (delegated to int()/float())",
                         "ids are never used as row positions in the sort path (R-SPACE not built)"]
+
+    col.rule("R-SORT", "with sorting requested the rows are renumbered by a traversal from the root that looks nodes up by id "
+             "(never by position), the frame is permuted by the traversal's order and the new ids / parent ids are stored in "
+             "that same row order (row-order kinds F/S/P inferred); a tree gets one node per row of the table", floor=12, shape=True)
+    col.guard(sort_clause, ctx, col)
 
     p = repo.get_def(f"{IO}.parse_swc")
     w, loop, handle = file_loop(ctx, p)
@@ -106,8 +111,28 @@ def run(ctx, col, tier):
         return False
 
     def comment_arm(n, label):
-        return n.kind == "test" and n.ast is not None and label == "true" and any(
-            isinstance(x, ast.Name) and x.id == "RE_COMMENT" for x in ast.walk(n.ast))
+        if not (n.kind == "test" and n.ast is not None):
+            return False
+        t, want = n.ast, "true"
+        if isinstance(t, ast.UnaryOp) and isinstance(t.op, ast.Not):
+            t, want = t.operand, "false"
+        if isinstance(t, ast.Compare) and len(t.ops) == 1 and isinstance(t.ops[0], ast.Is) and norm_src(t.comparators[0]) == "None":
+            want = "false" if want == "true" else "true"
+        return label == want and any(isinstance(x, ast.Name) and x.id == "RE_COMMENT" for e_ in expand_names(p, t) for x in ast.walk(e_))
+
+    def effect(n):
+        """a statement on the path that may store the line somewhere in a way the classification does not know"""
+        a = n.ast
+        if a is None or n.kind == "test":
+            return False
+        if n.kind == "loop":
+            return True
+        if isinstance(a, ast.Expr) and isinstance(a.value, ast.Call):
+            return (dotted(a.value.func) or "") not in ("warnings.warn", "warn", "print")
+        if isinstance(a, (ast.Assign, ast.AugAssign, ast.AnnAssign)):
+            tg = a.targets if isinstance(a, ast.Assign) else [a.target]
+            return any(not isinstance(t, ast.Name) for t in tg)
+        return False
 
     classes = {}
     npaths = 0
@@ -126,6 +151,8 @@ def run(ctx, col, tier):
             kind = "blank"
         elif any(comment_arm(n, l) for n, l in labels):
             kind = "filtered-comment"
+        elif any(effect(n) for n in nodes):
+            kind = "UNRECOGNISED"   # the path does something the classification does not know: no verdict
         else:
             kind = "DROPPED"
         sig = " ".join(f"{n.lineno}{l[0].upper() if l else ''}" for n, l in labels if n.kind == "test")
@@ -133,13 +160,19 @@ def run(ctx, col, tier):
     if getattr(g, "path_cap_hit", False):
         col.unresolved("R-CLASSIFY", p.qualname, p.loc(loop), "loop body paths", "path cap hit")
     for kind, sigs in sorted(classes.items()):
+        if kind == "UNRECOGNISED":
+            col.unresolved("R-CLASSIFY", p.qualname, p.loc(loop), "path class of every path is known",
+                           f"{len(sigs)} path(s) have an effect the classification does not know (tests taken: {sigs[0]})", stmt="class:unrecognised")
+            continue
         col.check(kind != "DROPPED", "R-CLASSIFY", p.qualname, p.loc(loop),
                   f"path class `{kind}`", f"{len(sigs)} paths",
                   f"{len(sigs)} path(s) through the line loop neither store, raise nor are blank: "
                   f"a line can be silently dropped (tests taken: {sigs[0]})",
                   stmt=f"class:{kind}", facts={"paths": len(sigs)})
     for need in ("row", "comment", "raise", "blank"):
-        if need not in classes:
+        if need not in classes and "UNRECOGNISED" in classes:
+            col.unresolved("R-CLASSIFY", p.qualname, p.loc(loop), f"path class `{need}` exists", "some paths are not classified", stmt=f"need:{need}")
+        elif need not in classes:
             col.bad("R-CLASSIFY", p.qualname, p.loc(loop), f"path class `{need}` exists",
                     f"no path of the line loop ends in `{need}`"
                     + (": malformed lines are not rejected" if need == "raise" else ""),
@@ -173,3 +206,64 @@ def run(ctx, col, tier):
     body_nodes = list(ast.walk(w))
     col.shape(loop in body_nodes, "R-ROW", p.qualname, p.loc(w),
               "the read loop runs inside the handle's with-block", "", "", stmt="with-loop")
+
+
+def sort_clause(ctx, col):
+    from ..rules import roworder
+    repo = ctx.repo
+    NORM = "swcgeom.core.swc_utils.normalizer"
+    sn = repo.get_def(f"{NORM}.sort_nodes_")
+    col.text_group("R-SORT", sn.qualname, sn, [
+        ("ids and parent ids as they stand in the table", ["ids, pids = df[names.id].to_numpy(), df[names.pid].to_numpy()"], "s:cols"),
+        ("new numbering and row permutation from one traversal", ["(new_ids, new_pids), indices = sort_nodes_impl((ids, pids))"], "s:impl"),
+        ("every column is permuted by the traversal order", ["for col in df.columns: df[col] = df[col][indices].to_numpy()"], "s:perm"),
+        ("the new ids and parent ids replace the old", ["df[names.id], df[names.pid] = new_ids, new_pids"], "s:store")],
+        fixed=("df", "names", "sort_nodes_impl"))
+    roworder.check(ctx, col, "R-SORT", sn, "df")
+    si = repo.get_def(f"{NORM}.sort_nodes_impl")
+    col.text_group("R-SORT", si.qualname, si, [
+        ("the table's ids and parent ids", ["old_ids, old_pids = topology"], "i:in"),
+        ("slot k: the old id of the node that becomes k", ["id_map = np.full_like(old_ids, fill_value=_any)"], "i:map"),
+        ("slot k: the new parent of node k", ["new_pids = np.full_like(old_ids, fill_value=_any)"], "i:pids"),
+        ("new ids count from 0", ["new_id = 0"], "i:zero"),
+        ("the traversal starts at the (first) root, whose parent stays -1", ["first_root = old_ids[(old_pids == -1).argmax()]"], "i:root"),
+        ("...", ["s = [(first_root, -1)]"], "i:stack"),
+        ("a node is numbered when it is popped", ["old_id, new_pid = s.pop()"], "i:pop"),
+        ("its old id is recorded at its new number", ["id_map[new_id] = old_id"], "i:rec"),
+        ("its parent's NEW number is recorded", ["new_pids[new_id] = new_pid"], "i:par"),
+        ("its children are found by ID (rows whose parent id equals its old id) and get its new number as parent",
+         ["s.extend((j, new_id) for j in old_ids[old_pids == old_id])"], "i:children"),
+        ("numbers are consecutive", ["new_id = new_id + 1", "new_id += 1"], "i:next"),
+        ("old id -> old row position through a dict (ids need not be positions)", ["id2idx = dict(zip(old_ids, range(len(old_ids))))"], "i:id2idx"),
+        ("new number -> old row position", ["indices = np.array([id2idx[i] for i in id_map], dtype=_any)"], "i:indices"),
+        ("new ids are 0..n-1", ["new_ids = np.arange(len(new_pids))"], "i:ids"),
+        ("both are returned", ["return (new_ids, new_pids), indices"], "i:ret")], fixed=("topology",))
+    rd = repo.get_def(f"{IO}.read_swc")
+    col.text_group("R-SORT", rd.qualname, rd, [
+        ("sorting, when requested, is applied to the parsed table", ["if sort_nodes:\n    sort_nodes_(df)\nelif reset_index:\n    reset_index_(df)"], "r:sort")],
+        fixed=("sort_nodes", "reset_index", "sort_nodes_", "reset_index_"))
+    fd = repo.get_def("swcgeom.core.tree.Tree.from_data_frame")
+    col.text_group("R-SORT", fd.qualname, fd, [
+        ("a tree has one node per row, every column taken from the table",
+         ["tree = Tree(df.shape[0], **{k: df[k].to_numpy() for k in names.cols()}, source=source, comments=comments, names=names)",
+          "tree = Tree(len(df), **{k: df[k].to_numpy() for k in names.cols()}, source=source, comments=comments, names=names)",
+          "return Tree(df.shape[0], **{k: df[k].to_numpy() for k in names.cols()}, source=source, comments=comments, names=names)"], "t:tree")],
+        fixed=("df", "names", "source", "comments", "Tree"))
+    # the node count handed to the constructor is a number of rows, not something computed from the ids
+    for c in own_nodes(fd):
+        if isinstance(c, ast.Call) and dotted(c.func) in ("Tree", "cls") and c.args:
+            exprs, seen = [c.args[0]], set()
+            while exprs:
+                e = exprs.pop()
+                for n in ast.walk(e):
+                    if isinstance(n, ast.Name) and n.id not in seen:
+                        seen.add(n.id)
+                        exprs += [a.value for a in own_nodes(fd) if isinstance(a, ast.Assign) and len(a.targets) == 1 and norm_src(a.targets[0]) == n.id]
+                    if isinstance(n, ast.Call) and isinstance(n.func, ast.Attribute) and n.func.attr in ("max", "min", "ptp", "nunique", "argmax", "argmin") \
+                            or isinstance(n, ast.Call) and (dotted(n.func) or "").split(".")[-1] in ("max", "min", "ptp", "amax", "amin"):
+                        col.bad("R-SORT", fd.qualname, fd.loc(c), "a tree has one node per row of the table",
+                                f"the node count `{norm_src(c.args[0])}` is computed from column VALUES (`{norm_src(n)[:60]}`), not from the number of rows: "
+                                f"ids are arbitrary distinct integers, so a table with gaps in its ids gets a different number of nodes than it has rows",
+                                stmt="t:count-from-values", definite=True)
+                        exprs = []
+                        break
